@@ -22,9 +22,47 @@ def refs_registry(f):
     return '"static": "%s"' % REG in json.dumps(f["pre"])
 
 
-def is_acquire(t):
+ACQ_KINDS = ("write", "read", "try_read", "try_write", "upgradable_read", "write_blocking", "read_blocking")
+_ACCESSORS = {}
+
+
+def accessors(fx):
+    """crate-local synchronous functions that do nothing but take the registry's lock and hand back the future / guard
+    (`mod registry { pub(super) fn write() -> Write<'static, Table> { TABLE.write() } }`): {def: kind}"""
+    key = id(fx)
+    if key not in _ACCESSORS:
+        out = {}
+        for f in fx.d["fns"]:
+            if f["kind"] not in ("fn", "assoc_fn") or f.get("is_async") or not refs_registry(f):
+                continue
+            b = Body(f)
+            acq = [(bi, t) for bi, t in b.normal_calls() if _is_lock_call(t)]
+            if len(acq) != 1:
+                continue
+            os_ = b.origins([0])
+            if os_ and all(o.kind == "call" and o.site == (acq[0][0],) and not o.proj for o in os_):
+                out[f["def"]] = acq[0][1]["callee"].split("::")[-1]
+        _ACCESSORS[key] = out
+    return _ACCESSORS[key]
+
+
+def _is_lock_call(t):
     c = t.get("callee") or ""
-    return c.startswith("async_lock::rwlock::") and c.endswith(("::write", "::read", "::try_read", "::try_write", "::upgradable_read", "::write_blocking", "::read_blocking"))
+    return c.startswith("async_lock::rwlock::") and c.endswith(tuple("::" + k for k in ACQ_KINDS))
+
+
+def is_acquire(t):
+    if _is_lock_call(t):
+        return True
+    fx = _FX[0]
+    return fx is not None and (t.get("resolved") or t.get("callee")) in accessors(fx)
+
+
+def acquire_kind(t):
+    if _is_lock_call(t):
+        return (t.get("callee") or "").split("::")[-1]
+    fx = _FX[0]
+    return accessors(fx).get(t.get("resolved") or t.get("callee")) if fx is not None else None
 
 
 def is_mapop(t):
@@ -183,7 +221,7 @@ class RegisterSpec(nfa.Spec):
 
 def registry_alphabet():
     def acq(kind):
-        return lambda t: is_acquire(t) and (t.get("callee") or "").endswith("::" + kind)
+        return lambda t: is_acquire(t) and acquire_kind(t) == kind
     calls = [("acq_" + k, acq(k)) for k in ("write", "read", "try_read", "try_write", "upgradable_read", "write_blocking", "read_blocking")]
     calls += [
         ("mapinsert", lambda t: is_mapop(t) and (t.get("callee") or "").endswith(("::insert", "::entry", "::get_or_insert_with"))),
@@ -226,7 +264,9 @@ def run(ctx):
 
 def check_cfg(ctx, fx, cfg):
     _FX[0] = fx
-    users = [f for f in fx.d["fns"] if refs_registry(f)]
+    acc = accessors(fx)
+    # the registry operations: whoever refers to the static, or takes its lock through an accessor function
+    users = [f for f in fx.d["fns"] if (refs_registry(f) and f["def"] not in acc) or any((t.get("resolved") or t.get("callee")) in acc for _, t in ctx.body(fx, f).normal_calls())]
     roots_ = sorted({f.get("root", f["def"]) for f in users})
     ctx.floor("R08.1", "registry operations (%s)" % cfg, len(roots_), 1 if cfg == "bare" else 3)
     for r in roots_:
@@ -283,8 +323,8 @@ def check_cfg(ctx, fx, cfg):
             ctx.require(len(acqs) == 1, "R08.2", inst, "expected exactly one lock acquisition site, found %d" % len(acqs), fn=f["def"], site=f["loc"], detail={"acquire": [t["callee"].split("::")[-1] for t in acqs], "map_ops": [t["callee"].split("::")[-1] for _, t in b.normal_calls() if is_mapop(t)]})
         for t in acqs:
             # it is the REGISTRY that is locked
-            rs = b.origins(t["args"][0])
-            on_reg = False
+            rs = b.origins(t["args"][0]) if t["args"] else set()
+            on_reg = (t.get("resolved") or t.get("callee")) in acc  # an accessor is, by construction, on the registry
             for o in rs:
                 if o.kind == "call":
                     ct = b.call_at(o)
@@ -301,7 +341,18 @@ def check_cfg(ctx, fx, cfg):
                 ctx.require(ok, "R08.2", inst + ":map-under-guard:" + t["callee"].split("::")[-1], "a map operation does not go through the guard: %s" % sorted(map(str, rs)), fn=f["def"], site=t["l"])
                 if len(t["args"]) > 1:
                     kr = b.origins(t["args"][1])
-                    kok = all(o.kind == "call" and (b.call_at(o).get("callee") or "").endswith("::of") and b.call_at(o)["gargs"][0] in ("A", "Self") for o in kr)
+                    def is_key(ct_):
+                        if (ct_.get("callee") or "").endswith("::of") and (ct_.get("gargs") or [None])[0] in ("A", "Self"):
+                            return True
+                        # a crate-local function that is `TypeId::of::<T>()` for its own type parameter (`registry::key_of::<A>()`)
+                        h_ = fx.callee_fn(ct_)
+                        if h_ is None or h_.get("is_async") or (ct_.get("gargs") or [None])[0] not in ("A", "Self"):
+                            return False
+                        hb_ = ctx.body(fx, h_)
+                        ho_ = hb_.origins([0])
+                        gen_ = h_.get("generics") or []
+                        return bool(ho_) and all(x.kind == "call" and (hb_.call_at(x).get("callee") or "").endswith("::of") and (hb_.call_at(x).get("gargs") or [None])[0] == (gen_[0] if gen_ else None) for x in ho_)
+                    kok = bool(kr) and all(o.kind == "call" and is_key(b.call_at(o)) for o in kr)
                     ctx.require(kok, "R08.2", inst + ":key:" + t["callee"].split("::")[-1], "the registry key is not TypeId::of the service type", fn=f["def"], site=t["l"])
         if short == "register":
             viols, ps = nfa.check(n, RegisterSpec())
